@@ -5,12 +5,15 @@ import (
 	"encoding/binary"
 	"fmt"
 	"io"
+	"math"
 	"net"
 	"os"
+	"reflect"
 	"strings"
 	"testing"
 	"testing/synctest"
 	"time"
+	"unsafe"
 
 	"github.com/openebs/jiva/rpc"
 	"verif/simrt"
@@ -128,6 +131,10 @@ func (rpcsim) Generate(rng *Rand, prop, tier string) *Script {
 		s.Cfg["mode"] = 0 // scripted peer
 	}
 	faulty := rng.Bool(60) && s.Cfg["mode"] == 0
+	if rng.Bool(25) {
+		// a long-lived connection: the 32-bit sequence number wraps during this run
+		s.Cfg["seqback"] = int64(rng.Range(1, 40))
+	}
 	nops := rng.Range(4, 60)
 	outstanding := 0
 	maxOut := rng.Range(1, 16)
@@ -412,6 +419,14 @@ func (rr *rpcRun) run() {
 			return
 		}
 		rr.client = rpc.NewClient(conn, rr.closeCh)
+		if back := s.Cfg["seqback"]; back > 0 {
+			// tuning knob: start the client's sequence counter just below 2^32 (a connection
+			// that has carried ~4e9 requests). Unexported field, set before the first request.
+			if f := reflect.ValueOf(rr.client).Elem().FieldByName("seq"); f.IsValid() && f.Kind() == reflect.Uint32 {
+				*(*uint32)(unsafe.Pointer(f.UnsafeAddr())) = uint32(math.MaxUint32 - uint32(back) + 1)
+				rr.res.stat("seq_wrap_runs", 1)
+			}
+		}
 		okc = true
 		w.Kick()
 	})
